@@ -494,6 +494,12 @@ def multi_case(i, tier):
             plan.append((kind, rng.randint(1, 8)))        # counted from the restart: lands inside the recovery
     downs = [rng.choice(DOWNTIMES) for _ in plan]
     cfg["crash_prefetch"] = rng.choice([0.0, 0.0, 0.5, 1.0])     # (drawn last: the cases themselves stay as they were)
+    if cfg["transport"] == "asyncio" and rng.random() < 0.3:
+        # a loggingConfiguration (only the asyncio front end takes one): what is logged about an execution whose record
+        # was re-created after a restart must not change how it ends
+        from checks import c11
+        for m in scn["machines"].values():
+            m["logging"] = json.loads(json.dumps(rng.choice(c11.LOGGING)))
     return {"scn": scn, "plan": plan, "downs": downs, "family": fam}, seed
 
 
